@@ -137,7 +137,8 @@ def handler(case):
     sig = set()
     for i, r in enumerate(case["reqs"]):
         p, q, h, tf, first, u = F(r["p"]), F(r["q"]), F(r["h"]), r["tf"], r["first"], F(r["u"])
-        dt = Time(h, TimeUnit.HOUR)
+        # the step is written in hours, minutes or seconds in turn (the battery works with its length in hours)
+        dt = [Time(h, TimeUnit.HOUR), Time(h * 60, TimeUnit.MINUTE), Time(h * 3600, TimeUnit.SECOND)][(i + len(case["reqs"])) % 3]
         bus.trafo_failed = tf
         b.update_fail_status(dt)
         ops.append(f"bat active {fb(not tf)}")
